@@ -44,8 +44,11 @@ class Bench:
         self.info = info or {}
         self.fairness = fairness  # for schedule == "free": max consecutive frames a domain may not tick
         t0 = time.time()
+        stable = {}
+        for n, s in list(self.inputs.items()) + list(self.consts.items()) + list(self.free_init.items()):
+            stable[s] = n
         self.design = Design(top, inputs=list(self.inputs.values()), consts=list(self.consts.values()),
-                             extra_clock_domains=clock_domains, name=name)
+                             extra_clock_domains=clock_domains, name=name, stable_names=stable)
         self.elab_s = time.time() - t0
         for n, s in self.free_init.items():
             if not self.design.is_state(s):
@@ -59,11 +62,16 @@ class Bench:
 class Unrolled:
     """Unroller + named goal Booleans, serialisable for worker processes."""
 
-    def __init__(self, bench, K, free_all=False):
+    def __init__(self, bench, K, free_all=False, coi=True):
         self.b = bench
         d = bench.design
         fi = set(d.regs) if free_all else set(bench.free_init.values())
-        self.U = U = Unroller(d, free_init=fi, schedule=bench.schedule)
+        cone = None
+        if coi:
+            roots = list(bench.assumes.values()) + list(bench.bads.values()) + list(bench.covers.values())
+            cone = d.cone(roots, bench.init_assume)
+        self.cone_bits = sum(len(s) for s in d.regs if cone is None or s in cone)
+        self.U = U = Unroller(d, free_init=fi, schedule=bench.schedule, cone=cone)
         t0 = time.time()
         U.extend(K)
         self.K = K
@@ -117,42 +125,109 @@ class Unrolled:
 
 # ---- worker side ----------------------------------------------------------------------------------
 
-_WCACHE = {}
+_MODEL_RE = None
+Z3_BIN = os.environ.get("VERIF_Z3_BIN", "/usr/bin/z3")
+PY_TACTIC = ['simplify', 'propagate-values', 'solve-eqs', 'elim-uncnstr', 'simplify', 'bit-blast', 'aig', 'sat']
+
+
+def _parse_model(out):
+    import re
+    global _MODEL_RE
+    if _MODEL_RE is None:
+        _MODEL_RE = re.compile(r"\(define-fun\s+(\|[^|]*\||[^\s()]+)\s+\(\)\s+(?:\(_ BitVec \d+\)|Bool)\s+"
+                               r"(#x[0-9a-fA-F]+|#b[01]+|true|false)\)")
+    model = {}
+    for m in _MODEL_RE.finditer(out):
+        n, v = m.group(1), m.group(2)
+        if n.startswith("|"):
+            n = n[1:-1]
+        if v.startswith("#x"):
+            model[n] = int(v[2:], 16)
+        elif v.startswith("#b"):
+            model[n] = int(v[2:], 2)
+        else:
+            model[n] = 1 if v == "true" else 0
+    return model
+
+
+def _q(n):
+    return "|%s|" % n
 
 
 def _worker(args):
-    text_key, text, assert_names, neg_names, timeout_ms, want_model, tactic = args
+    """decide one query.  Primary engine: the z3 4.8.12 binary (its QF_BV strategy is by far the fastest on
+    these unrollings in this sandbox); engine 'py' = z3 5.1 wheel with an explicit bit-blast/aig/sat pipeline."""
+    text_key, text, assert_names, neg_names, timeout_ms, want_model, engine = args
+    import subprocess
+    import tempfile
+    import shutil
     t0 = time.time()
-    ctx = z3.Context()
-    if tactic:
-        s = z3.Then(*[z3.Tactic(x, ctx) for x in tactic]).solver()
-    else:
-        s = z3.SolverFor("QF_BV", ctx=ctx)
-    if timeout_ms:
-        s.set("timeout", int(timeout_ms))
-    s.from_string(text)
-    for clause in assert_names:
-        s.add(z3.Or(*[z3.Bool(n, ctx) for n in clause]))
-    for n in neg_names:
-        s.add(z3.Not(z3.Bool(n, ctx)))
-    r = s.check()
-    res = str(r)
-    model = None
-    reason = None
-    if res == "sat" and want_model:
-        m = s.model()
-        model = {}
-        for dcl in m.decls():
-            v = m[dcl]
-            if z3.is_bv_value(v):
-                model[dcl.name()] = v.as_long()
-            elif z3.is_true(v):
-                model[dcl.name()] = 1
-            elif z3.is_false(v):
-                model[dcl.name()] = 0
-    if res == "unknown":
-        reason = s.reason_unknown()
-    return res, time.time() - t0, model, reason
+    engine = engine or os.environ.get("VERIF_SOLVER", "z3bin")
+    if engine == "z3bin" and not os.path.exists(Z3_BIN):
+        engine = "py"
+    if engine == "py":
+        ctx = z3.Context()
+        s = z3.Then(*[z3.Tactic(x, ctx) for x in PY_TACTIC]).solver()
+        if timeout_ms:
+            s.set("timeout", int(timeout_ms))
+        s.from_string(text)
+        for clause in assert_names:
+            s.add(z3.Or(*[z3.Bool(n, ctx) for n in clause]))
+        for n in neg_names:
+            s.add(z3.Not(z3.Bool(n, ctx)))
+        r = s.check()
+        res = str(r)
+        model = None
+        reason = None
+        if res == "sat" and want_model:
+            m = s.model()
+            model = {}
+            for dcl in m.decls():
+                v = m[dcl]
+                if z3.is_bv_value(v):
+                    model[dcl.name()] = v.as_long()
+                elif z3.is_true(v):
+                    model[dcl.name()] = 1
+                elif z3.is_false(v):
+                    model[dcl.name()] = 0
+        if res == "unknown":
+            reason = s.reason_unknown()
+        return res, time.time() - t0, model, reason
+    tmpd = tempfile.mkdtemp(prefix="verif_q_")
+    try:
+        path = os.path.join(tmpd, "q.smt2")
+        with open(path, "w") as f:
+            f.write("(set-logic QF_BV)\n")
+            f.write(text)
+            f.write("\n")
+            for clause in assert_names:
+                f.write("(assert (or %s false))\n" % " ".join(_q(n) for n in clause))
+            for n in neg_names:
+                f.write("(assert (not %s))\n" % _q(n))
+            f.write("(check-sat)\n")
+        cmd = [Z3_BIN]
+        if timeout_ms:
+            cmd.append("-T:%d" % max(1, int(timeout_ms / 1000)))
+        p = subprocess.run(cmd + [path], stdout=subprocess.PIPE, stderr=subprocess.STDOUT, universal_newlines=True)
+        out = p.stdout
+        first = out.strip().splitlines()[0].strip() if out.strip() else ""
+        if "(error" in out:
+            return "unknown", time.time() - t0, None, "solver error: %s" % out[:300]
+        if first == "unsat":
+            return "unsat", time.time() - t0, None, None
+        if first != "sat":
+            return "unknown", time.time() - t0, None, (first or "no output")[:200]
+        model = None
+        if want_model:
+            with open(path, "a") as f:
+                f.write("(get-model)\n")
+            p = subprocess.run(cmd + [path], stdout=subprocess.PIPE, stderr=subprocess.STDOUT, universal_newlines=True)
+            if "(error" in p.stdout or not p.stdout.strip().startswith("sat"):
+                return "unknown", time.time() - t0, None, "model extraction failed: %s" % p.stdout[:200]
+            model = _parse_model(p.stdout)
+        return "sat", time.time() - t0, model, None
+    finally:
+        shutil.rmtree(tmpd, ignore_errors=True)
 
 
 class Query:
@@ -265,7 +340,7 @@ def diff_validate(bench, ncycles=24, seed=0, bias=None, max_comb=400):
     returns (n_compared, mismatches)"""
     rnd = random.Random(seed)
     d = bench.design
-    u = Unrolled(bench, ncycles)
+    u = Unrolled(bench, ncycles, coi=False)
     U = u.U
     stim = {"consts": {}, "init": {}, "frames": [], "ticks": []}
 
